@@ -1,5 +1,6 @@
 import Librfn.Driver.Util
 import Librfn.Model.Fibre
+import Librfn.Model.MainLoop
 import Librfn.Spec.Sched
 /-! Line-protocol driver for C01–C03: same ops and canonical outputs as `harness/h_sched.c`.
 
@@ -9,7 +10,13 @@ import Librfn.Spec.Sched
                                 (`Spec.Sched.inScopeFrom`), `out` from the first op that leaves it
 
 ops:  reset | run f | atomic f | kill f | next T ret item*      (f < 8; T and due times: true integer times)
-      ret ∈ y w e f ; item ∈ r:g a:g k:g t:D p:L                 "--" echoes "--" -/
+      ret ∈ y w e f ; item ∈ r:g a:g k:g t:D p:L                 "--" echoes "--"
+      loop T1 T2 ret item*    one iteration of `fibre_scheduler_main_loop` (posix/fibre_posix.c; `Model/MainLoop.lean`):
+                              the pass `next T1 ret item*`, then the sleep computed from its result and the clock reading T2
+          model  the `next` line + ` sleep=<d>` | ` sleep=none`
+          spec   the `next` line + ` maxsleep=<V - T2>`  (V = the true returned time; `Spec.Sched.SleepOk V T2` allows
+                 `none` always and `d` iff 0 < d ≤ V - T2 — a relation, judged by props/sched_common.py)
+          scope  `Spec.Sched.loopOk`: the pass is in scope, T1 ≤ T2, T2 - T1 ≤ 2^31 -/
 namespace Librfn.Driver.Sched
 open Librfn.Driver Librfn.Sched
 
@@ -48,6 +55,17 @@ def op? : List String → Option (Op Int)
     | _, _, _ => none
   | _ => none
 
+/-- what a line asks for: a call of the history, or one iteration of the POSIX main loop -/
+inductive DOp
+  | op (o : Op Int)
+  | loop (t1 t2 : Int) (script : List (Call Int)) (ret : Ret)
+
+def dop? : List String → Option DOp
+  | "loop" :: t1 :: t2 :: r :: its => match t1.toInt?, t2.toInt?, ret? r, items? its with
+    | some t1, some t2, some r, some s => some (.loop t1 t2 s r)
+    | _, _, _, _ => none
+  | w => (op? w).map .op
+
 def resStr (l : List Res) : String :=
   String.join (l.map fun | .unit => "." | .bool true => "1" | .bool false => "0")
 
@@ -62,29 +80,43 @@ def render : Out → String
     | none => s!"idle self={selfStr p.self} wake={p.wake.toNat}"
 
 /-- generic step: `--` echoes, `reset` re-initialises, anything unparsable is `bad-op` -/
-def stepWith {σ : Type} (init : σ) (f : σ → Op Int → σ × String) (s : σ) (w : List String) : σ × List String :=
+def stepWith {σ : Type} (init : σ) (f : σ → DOp → σ × String) (s : σ) (w : List String) : σ × List String :=
   match w with
   | ["--"] => (s, ["--"])
   | ["reset"] => (init, ["ok"])
   | [] => (s, [])
-  | w => match op? w with
+  | w => match dop? w with
     | some op => let q := f s op; (q.1, [q.2])
     | none => (s, ["bad-op"])
 
-def modelStep (k : Model.Fibre.K) (op : Op Int) : Model.Fibre.K × String :=
-  let q := Model.Fibre.step k (op.map w32); (q.1, render q.2)
+def sleepStr : Option Nat → String
+  | none => "none" | some d => toString d
 
-def specStep (a : Spec.Sched.A) (op : Op Int) : Spec.Sched.A × String :=
-  let q := Spec.Sched.step a op; (q.1, render q.2)
+def modelStep (k : Model.Fibre.K) : DOp → Model.Fibre.K × String
+  | .op op => let q := Model.Fibre.step k (op.map w32); (q.1, render q.2)
+  | .loop t1 t2 s r =>
+    let q := Model.MainLoop.mainLoopPass k (w32 t1) (w32 t2) (s.map (Call.map w32)) r
+    (q.1, render (.pass q.2.1) ++ " sleep=" ++ sleepStr q.2.2)
+
+def specStep (a : Spec.Sched.A) : DOp → Spec.Sched.A × String
+  | .op op => let q := Spec.Sched.step a op; (q.1, render q.2)
+  | .loop t1 t2 s r =>
+    let q := a.next t1 s r
+    (q.1, render (.pass q.2) ++ " maxsleep=" ++ toString (a.passWake t1 s r - t2))
 
 structure ScopeSt where
   a : Spec.Sched.A := {}
   last : Option Int := none
   ok : Bool := true
 
-def scopeStep (s : ScopeSt) (op : Op Int) : ScopeSt × String :=
-  let ok := s.ok && Spec.Sched.opOk s.a s.last op
-  ({ a := (Spec.Sched.step s.a op).1, last := Spec.Sched.lastOf s.last op, ok := ok }, if ok then "in" else "out")
+def scopeStep (s : ScopeSt) : DOp → ScopeSt × String
+  | .op op =>
+    let ok := s.ok && Spec.Sched.opOk s.a s.last op
+    ({ a := (Spec.Sched.step s.a op).1, last := Spec.Sched.lastOf s.last op, ok := ok }, if ok then "in" else "out")
+  | .loop t1 t2 sc r =>
+    -- the state moves as for `next t1`; the scheduler has seen the time t1 only
+    let ok := s.ok && Spec.Sched.loopOk s.a s.last t1 t2 sc r
+    ({ a := (s.a.next t1 sc r).1, last := some t1, ok := ok }, if ok then "in" else "out")
 
 def main (args : List String) : IO UInt32 :=
   match args with
